@@ -133,7 +133,8 @@ topology('T4',
                                      Branch('a', 'b', elm.resistor('R1', g.pos('R1'))),
                                      Branch('b', 'a', elm.impedance('Z2', g.complex('Z2'))),
                                      Branch('b', 'a', elm.current_source('Is', g.complex('I')))], 'gnd')),
-         lambda net: net['Z2'].element.Z != 0 and net['R1'].element.Z + net['Z2'].element.Z != 0, use_det=False)
+         lambda net: net['Z2'].element.Z != 0 and net['R1'].element.Z + net['Z2'].element.Z != 0, use_det=False,
+         props=('C01', 'C02', 'C04', 'C05'))      # parallel branches (possibly of equal value) between two nodes: also behind the phasor analysis (C02) and superposition (C04)
 
 # T5: three non-reference nodes, open circuit and short circuit branches present, load element
 topology('T5',
